@@ -193,6 +193,8 @@ class Engine:
         self.path_kf = []
         self.violations = []
         self.depth = 0
+        self.path_state = {}
+        self.fs = None
         self.solver.push()
         r = PathResult()
         try:
